@@ -34,6 +34,30 @@ CHECKS = {
         'technique': 'TLA+ design model (ConnTick, safety + liveness) + TLC-generated schedules replayed into the real handler + '
                      'TLC trace validation against Conn.tla',
     },
+    'C03': {
+        'text': 'Reference one-shot semantics of HTTP/1.x messages written in TLA+ (Http.tla: start line, headers, Content-Length / '
+                'chunked framing with extensions and trailers, message end, remainder). The ideal incremental parser is accumulate + '
+                'Parse. Every message of a grammar-generated corpus is fed to the REAL HttpParser / ChunkParser in one piece, in every '
+                '2-piece and (short messages) every 3-piece segmentation, one byte per piece and random multi-cuts; TLC (TraceParse) '
+                'judges each recorded segmentation: completion reported exactly at the piece holding the last byte, final state equal '
+                'to the one-piece state, remainder equal to the reference remainder.',
+        'design_ref': 'DESIGN.md section 6, C03',
+        'note': 'Trusted: TLC and the JSON bridge. Bounded: messages up to ~150 bytes, all cuts into <= 3 pieces for messages <= 60 '
+                '(quick) / 90 (thorough) bytes, sampled beyond; close-delimited framing excluded by the property.',
+        'technique': 'TLA+ reference parser (Http.tla) + TLC batch validation (TraceParse) of recorded segmented executions of the real parser',
+    },
+    'C15': {
+        'text': 'Reference codec in TLA+ (Http.tla) whose own laws are model-checked exhaustively (CodecLaws: Dechunk o Enchunk = id for '
+                'every body <= L over a chunk-syntax alphabet, every chunk size <= S, arbitrary tails; message laws). Recorded executions '
+                'of the real builders, parser (both types), rebuild, to_chunks/ChunkParser (also fed in pieces) and update_body with '
+                'gzip / identity / other encodings are judged by TLC (TraceCodec) against the reference: fields, body, framing '
+                'consistency, single Content-Length, never Content-Length together with chunked.',
+        'design_ref': 'DESIGN.md section 6, C15',
+        'note': 'Trusted: TLC, JSON bridge, CPython zlib for gzip inflation (its extraction of the encoded body is cross-checked by the '
+                'reference parser). Bounded argument space, sampled contents.',
+        'technique': 'TLA+ reference codec with exhaustively model-checked laws (CodecLaws) + TLC batch validation (TraceCodec) of recorded '
+                     'builder / parser / chunk-codec executions',
+    },
     'C16': {
         'text': 'Every case of the enumerated frame space (all 512 flag x opcode x mask combinations at the length thresholds, '
                 'every length 0..130, the 65530..65540 band, up to 1 MiB) is executed on the real WebsocketFrame.build/parse '
